@@ -173,3 +173,131 @@ unit("C36", "The large-object treadmill accounts for every object exactly once",
      note="Object references are synthetic addresses (the treadmill only hashes them).",
      design_ref="2/C36", miri=True,
      floors={"quick": {"evaluations": 40000, "gc_full": 15000, "gc_nursery": 20000, "copy_mature": 300000, "copy_nursery": 200000, "cycles_with_address_reuse": 10000, "histories_concurrent": 100}})
+
+
+# =================================================================================================
+# gcsim checks: generated mutator programs against a real MMTk instance, one short process each
+# =================================================================================================
+
+PLANS_A = ["SemiSpace", "GenCopy", "GenImmix", "Immix", "StickyImmix", "MarkSweep", "MarkCompact",
+           "ConcurrentImmix", "PageProtect", "NoGC"]
+PLANS_B = ["SemiSpace", "GenCopy", "GenImmix", "Immix", "StickyImmix", "MarkSweep", "MarkCompact",
+           "Compressor", "ConcurrentImmix", "PageProtect"]
+PLANS_C = ["SemiSpace", "MarkCompact", "PageProtect", "NoGC"]
+GENERATIONAL = ["GenCopy", "GenImmix", "StickyImmix"]
+COLLECTING = [p for p in PLANS_A if p != "NoGC"]
+
+
+def _rng(seed, salt):
+    import random
+    return random.Random(seed * 1000003 + salt)
+
+
+def gc_shard(variant, plan, rnd, ops, flags=(), mutators=None, workers=None, heap=None, stress=None,
+             scenario=None, extra=(), finding=None):
+    mut = mutators if mutators is not None else rnd.choice([1, 1, 2, 4])
+    wrk = workers if workers is not None else rnd.choice([1, 2, 4, 8])
+    if heap is None:
+        heap = 4096 if plan == "NoGC" else rnd.choice([32, 64, 128])
+    if stress is None:
+        stress = rnd.choice([65536, 200000, 1000000])
+    args = ["--plan", plan, "--heap-mb", heap, "--ops", ops, "--stress", stress, "--workers", wrk,
+            "--mutators", mut, "--watchdog", 120]
+    if scenario:
+        args += ["--scenario", scenario]
+    for f in flags:
+        args.append("--" + f)
+    args += list(extra)
+    d = dict(pkg="gcsim", variant=variant, args=args, timeout=600)
+    if finding:
+        d["finding"] = finding
+    return d
+
+
+def std_gc_shards(tier, seed, salt, flags, plans_filter=None, single_mutator=False, variants="ABC",
+                  ops_quick=12000, ops_thorough=40000, reps_quick=1, reps_thorough=6, scenario=None, extra=()):
+    rnd = _rng(seed, salt)
+    shards = []
+    reps = reps_quick if tier == "quick" else reps_thorough
+    ops = ops_quick if tier == "quick" else ops_thorough
+    table = [("A", PLANS_A), ("B", PLANS_B), ("C", PLANS_C)]
+    for variant, plans in table:
+        if variant not in variants:
+            continue
+        for plan in plans:
+            if plans_filter and plan not in plans_filter:
+                continue
+            n = reps
+            # quick tier: variant A gets every plan once; B and C rotate through their plans
+            if tier == "quick" and variant != "A":
+                if plan not in ("Compressor",) and rnd.random() < 0.5:
+                    continue
+            for _ in range(n):
+                shards.append(gc_shard(variant, plan, rnd, ops, flags=flags,
+                                       mutators=1 if single_mutator else None, scenario=scenario, extra=extra))
+    return shards
+
+
+FINDING_SHARDS = {
+    # known findings that need a whole configuration to reproduce (see known_findings.json)
+    "C01": [
+        ("A", "MarkCompact", "config:markcompact+nonmoving-immix-space"),
+        ("B", "Compressor", "config:compressor+references-from-immortal-or-nonmoving"),
+    ],
+    "C12": [
+        ("A", "ConcurrentImmix", "config:concurrentimmix+nonmoving-immix-space"),
+    ],
+}
+
+
+def finding_shards(pid, seed):
+    rnd = _rng(seed, 77)
+    out = []
+    for variant, plan, sig in FINDING_SHARDS.get(pid, []):
+        out.append(gc_shard(variant, plan, rnd, 6000, mutators=1, workers=4, heap=128, stress=200000,
+                            scenario="finding-" + plan.lower(), finding=sig))
+    return out
+
+
+def gcsim(pid, title, rule, technique, level_text, note, design_ref, shards, floors=None, **kw):
+    CHECKS[pid] = dict(title=title, rule=rule, technique=technique, level="exploration",
+                       level_text=level_text, level_note=note, design_ref=design_ref,
+                       floors=floors or {}, shards=shards, exhaustive=False,
+                       assumptions=["the VerifVM binding and its shadow heap (harness/vmbind) are the trusted oracle",
+                                    "object graph operations are serialised by one shadow lock; allocation itself runs concurrently"],
+                       engine="gcsim", parallel=8, crash_is_violation=True,
+                       crash_sig=lambda shard, res: "crash:%s:%s" % (shard["variant"], _plan_of(shard)), **kw)
+
+
+def _plan_of(shard):
+    a = [str(x) for x in shard["args"]]
+    return a[a.index("--plan") + 1] if "--plan" in a else "?"
+
+
+GC_RULE = ("PRNG-generated multi-threaded mutator programs (allocate with boundary-heavy sizes/alignments/semantics, write fields through the barriers, "
+           "load, drop/share roots, build lists/trees, array copies, rebind mutators, user GCs, polls) against a real MMTk instance; one short process per "
+           "(build variant A/B/C, plan, heap size, stress factor, #workers 1-8, #mutators 1-4, seed); ")
+
+gcsim("C01", "Collection preserves every reachable object and the reachable graph",
+      rule=GC_RULE + "after EVERY pause the whole shadow-reachable graph is compared with the real heap (id, size, payload, every slot, id<->address bijection, root slots); "
+           "a case = one pause; non-trivial = objects verified; distinct = (GC kind, live-set size class, moved-count class)",
+      technique="shadow-heap oracle at quiescent points over real GCs driven by generated programs (runtime monitoring through a real VM binding)",
+      level_text="Every pause of every generated program is followed by a full comparison of the real heap with the shadow heap; objects copied are tracked through ObjectModel::copy/copy_to; "
+                 "old copies are tombstoned so stale slots are visible; crashes inside mmtk during a legal program count as violations. Exploration over programs, plans, feature sets and schedules - not exhaustive.",
+      note="Finds what the produced executions exhibit. NonMoving allocations are left out for (MarkCompact, ConcurrentImmix) and Immortal/NonMoving for Compressor except in the known-finding shards.",
+      design_ref="2/C01",
+      shards=lambda tier, seed: std_gc_shards(tier, seed, 1, ["weak", "finalizers", "ephemerons", "pin-roots"]) + finding_shards("C01", seed),
+      floors={"quick": {"pauses": 300, "objects_verified": 50000, "objects_moved": 5000, "processes_plan_SemiSpace": 1,
+                        "processes_plan_GenCopy": 1, "processes_plan_GenImmix": 1, "processes_plan_Immix": 1, "processes_plan_StickyImmix": 1,
+                        "processes_plan_MarkSweep": 1, "processes_plan_MarkCompact": 1, "processes_plan_Compressor": 1,
+                        "processes_plan_ConcurrentImmix": 1, "processes_plan_PageProtect": 1, "processes_plan_NoGC": 1}})
+
+gcsim("C02", "New allocations never overlap live objects",
+      rule=GC_RULE + "every allocation result is looked up in an interval map of all objects that are reachable or were allocated since the last completed pause; "
+           "case = one allocation",
+      technique="interval-map monitor on every allocation return (shadow heap), across GCs, several mutators allocating concurrently",
+      level_text="Each allocation of each generated program is checked for overlap with every live or recently allocated object; garbage leaves the map only when a GC completes.",
+      note="Dead objects are removed from the map at pause end, so reuse of dead space never alarms.",
+      design_ref="2/C02",
+      shards=lambda tier, seed: std_gc_shards(tier, seed, 2, ["weak", "finalizers"]),
+      floors={"quick": {"allocations_checked": 150000, "processes_plan_MarkSweep": 1, "processes_plan_Immix": 1, "processes_plan_SemiSpace": 1}})
